@@ -13,7 +13,9 @@ E  tables   for each of the 12 column datatypes (int, decimal, str, date, bool, 
             tier: 0..2 cells under the long header);
             every ordered pair of datatypes side by side with 1..2 rows over reduced alphabets; the empty
             result (0 rows) of every datatype, also through beanquery.render.text.render.
-   options  boxed x unicode x spaced x expand x narrow x nullvalue {'', 'NULL'} x listsep {'  ', ', '}:
+   options  boxed x unicode x spaced x expand x narrow x nullvalue {'', 'NULL'} x listsep {'  ', ', '}
+            (+ the same with the placeholder ' - ', which has blanks of its own: quick tier on single columns of <= 2 cells
+            and one-row pairs, thorough tier on every table):
             all 128 for single columns (both tiers); for pairs a 16-run orthogonal array of strength 3 (every
             combination of any three options occurs) in the quick tier, all 128 in the thorough tier.
 O  text     (1) every line has the same width; (2) the rule lines give the column spans, all rule lines agree,
@@ -63,7 +65,10 @@ from decimal import Decimal as D
 LEVEL = 'model_checking'
 
 ASSUMPTIONS = [
-    'widths are counted in code points (len); strings contain no newline, tab, East-Asian wide or combining characters and no leading/trailing blanks',
+    'widths are counted in code points (len); strings contain no newline, tab, East-Asian wide or combining characters',
+    'a string (and the NULL placeholder) may have blanks of its own: the text cell must hold the exact string inside its span and nothing else but padding, '
+    'the CSV field must hold the exact string too (padding around it is tolerated, as the property says "padding aside"); set items with blanks are outside '
+    '(tags, links and account names cannot contain any)',
     'centred = blanks left and right of the header differ by at most one (which side gets the odd blank is not specified)',
     'a header cut in narrow mode may be any piece of the name exactly as wide as the column',
     'the blank line of the spaced option after the LAST row is optional; which line of an expanded row carries the single-valued cells is not specified',
@@ -85,7 +90,7 @@ ASSUMPTIONS = [
 
 DTORDER = ['int', 'decimal', 'str', 'date', 'bool', 'set', 'dict', 'object', 'amount', 'position', 'cost', 'inventory']
 LISTLIKE = (set, R.Inventory)
-GENERIC_LOCI = {'header', 'header-centre', 'header-cut', 'frame', 'null', 'spacing', 'csv-header', 'csv-options', 'empty'}
+GENERIC_LOCI = {'header', 'header-centre', 'header-cut', 'frame', 'null', 'spacing', 'csv-header', 'csv-options', 'csv-null', 'empty'}
 
 
 def _rot(seq, seed):
@@ -120,7 +125,7 @@ def alphabets(seed, thorough):
     full = {
         'int': [None, -300, 0, o_int, o_big],
         'decimal': [None, D('-1.5'), D('0'), D('0.50'), o_dec, D('1E+3'), D('-0.001'), D(1) / D(3)] + plus(D('2'), D('1E-7')),
-        'str': [None, '', o_str, 'x' * 12, 'p,q', 'é"r'] + plus('a'),
+        'str': [None, '', o_str, 'x' * 12, 'p,q', 'é"r', '  Indented', 'Cafe ', '  '] + plus('a', ' b '),
         'date': [None, datetime.date(2020, 2, 29), datetime.date(1999, 12, 31), datetime.date(900, 1, 1)],
         'bool': [None, True, False],
         'set': [None, frozenset(), frozenset({'a'}), frozenset({'a', 'bcd'})],
@@ -136,7 +141,7 @@ def alphabets(seed, thorough):
     reduced = {
         'int': [None, -300, o_int],
         'decimal': [None, D('-1.5'), D('0.50'), o_dec],
-        'str': [None, '', o_str],
+        'str': [None, '', o_str, ' b '],
         'date': [None, datetime.date(2020, 2, 29)],
         'bool': [None, True, False],
         'set': [None, frozenset(), frozenset({'a', 'bcd'})],
@@ -157,6 +162,14 @@ def all_options():
             for sep in ('  ', ', '):
                 out.append(dict(boxed=boxed, unicode=unicode, spaced=spaced, expand=expand, narrow=narrow, nullvalue=null, listsep=sep))
     return out
+
+
+BLANK_NULL = ' - '
+
+
+def blank_null_options(base):
+    """The runs of ``base`` that use the 'NULL' placeholder, with a placeholder that has surrounding blanks instead."""
+    return [dict(o, nullvalue=BLANK_NULL) for o in base if o['nullvalue'] == 'NULL']
 
 
 def oa16_options():
@@ -210,7 +223,11 @@ def check_cell(dtype, v, colcells, o, stats):
     if v is None:
         stats['null'] += 1
         null = o['nullvalue']
-        if (nonblank != [] if null == '' else (len(nonblank) != 1 or nonblank[0].strip() != null)):
+        if null.strip() == '':      # an empty or all-blank placeholder: blank cells wide enough to hold it
+            bad = nonblank != [] or not any(null in c for c in colcells)
+        else:                       # the placeholder, with its own blanks, inside the span of exactly one line
+            bad = len(nonblank) != 1 or null not in nonblank[0] or nonblank[0].strip() != null.strip()
+        if bad:
             return ('null', f'NULL is shown as {[c for c in colcells]!r}, expected the placeholder {null!r}')
         return None
     stats['readback'] += 1
@@ -224,6 +241,11 @@ def check_cell(dtype, v, colcells, o, stats):
         return ('readback', f'single-valued {R.show(v)} is spread over several lines {colcells!r}')
     cell = nonblank[0] if nonblank else colcells[0]
     stats['cell'] = cell
+    if isinstance(v, str):
+        # a string is read inside its column span: its own leading / trailing blanks must be there, the rest is padding
+        if v not in cell or cell.strip() != v.strip():
+            return ('readback', f'{v!r}: the cell {cell!r} is not this string plus padding')
+        return None
     msg = R.read_scalar(dtype, v, cell.strip(), o['listsep'])
     return ('readback', f'{R.show(v)}: {msg}') if msg else None
 
@@ -281,6 +303,7 @@ def walk_body(body, nl, dtypes, rows, o, stats):
     probs = []
     k = 0
     records = []
+    spans = []      # per row: the slice of records it occupies
     dots = [set() for _ in dtypes]
     # lots[j]: (commodity, n-th lot of it, 'units' / 'cost') -> offsets seen; None = column exempt / not amount-like
     lots = [lot_table(t, [r[j] for r in rows], o['expand'], stats) for j, t in enumerate(dtypes)]
@@ -291,6 +314,7 @@ def walk_body(body, nl, dtypes, rows, o, stats):
             if any(c.strip() for c in body[k]):
                 probs.append(('spacing', None, f'the line after row {i} should be blank with spaced=True: {body[k]!r}'))
             k += 1
+        spans.append((len(records), len(records) + len(lines)))
         records.extend(lines)
         if not lines:
             continue
@@ -325,7 +349,7 @@ def walk_body(body, nl, dtypes, rows, o, stats):
                 probs.append(('lot-offset', j, f'column {j} ({R.DTNAME[dtypes[j]]}): the {key[2]} of {what} have their (decimal point, currency symbol) '
                                                f'at offsets {sorted(set(offs))} in different rows'))
                 break
-    return probs, records
+    return probs, (records, spans)
 
 
 def lot_table(dtype, values, expand, stats):
@@ -381,7 +405,11 @@ def _check_csv(names, dtypes, rows, expand, null, stats):
     return [], recs, raw
 
 
-def compare_csv_text(dtypes, trecs, crecs, stats):
+def compare_csv_text(dtypes, rows, null, trecs, crecs, stats):
+    """Each CSV field = the text cell, padding aside.  Padding is what the renderer adds for alignment: blanks that
+    belong to the VALUE (a string's own leading / trailing blanks, the blanks of the NULL placeholder) are not padding
+    and must be in the field."""
+    trecs, spans = trecs
     probs = []
     for i, (tr, cr) in enumerate(zip(trecs, crecs)):
         for j, (t, tc, cc) in enumerate(zip(dtypes, tr, cr)):
@@ -389,6 +417,19 @@ def compare_csv_text(dtypes, trecs, crecs, stats):
             same = R.tokens(tc) == R.tokens(cc) if t in LISTLIKE else tc.strip() == cc.strip()
             if not same:
                 probs.append(('csv-cell', j, f'record {i} column {j} ({R.DTNAME[t]}): CSV field {cc!r} differs from the text cell {tc!r}'))
+    for i, (row, (a, b)) in enumerate(zip(rows, spans)):
+        for j, v in enumerate(row):
+            fields = [cr[j] for cr in crecs[a:b]]
+            if not fields:
+                continue
+            if v is None and null != null.strip():
+                stats['csv_value_blanks'] += 1
+                if not any(null in f for f in fields):
+                    probs.append(('csv-null', j, f'row {i} column {j}: the CSV field(s) {fields!r} do not hold the NULL placeholder {null!r} with its blanks'))
+            elif isinstance(v, str) and v != v.strip():
+                stats['csv_value_blanks'] += 1
+                if not any(v in f for f in fields):
+                    probs.append(('csv-cell', j, f'row {i} column {j} ({R.DTNAME[dtypes[j]]}): the CSV field(s) {fields!r} do not hold the string {v!r} with its own blanks'))
     return probs
 
 
@@ -414,7 +455,7 @@ class TableCheck:
             out += [('csv', loc, j, msg) for loc, j, msg in self.csv[key][0]]
         crecs, raw = self.csv[key][1], self.csv[key][2]
         if trecs is not None and crecs is not None:
-            out += [('csv', loc, j, msg) for loc, j, msg in compare_csv_text(self.dtypes, trecs, crecs, st)]
+            out += [('csv', loc, j, msg) for loc, j, msg in compare_csv_text(self.dtypes, self.rows, o['nullvalue'], trecs, crecs, st)]
         # The shell hands every setting to every renderer: CSV through the format's entry point with ALL the options
         # must be what render_csv gives with expand / nullvalue alone (boxed, spaced, narrow, unicode, listsep are text-only).
         if not csv_all:
@@ -530,6 +571,7 @@ def shard(shard_no, nshards, seed, thorough):
     opts_all = all_options()
     opts_pair = opts_all if thorough else oa16_options()
     oa16 = [tuple(sorted(o.items())) for o in oa16_options()]
+    blank_all, blank_pair = blank_null_options(opts_all), blank_null_options(opts_pair)
     for idx, (kind, names, dtnames, rows) in enumerate(tables(seed, thorough)):
         if not mine(idx, shard_no, nshards):
             continue
@@ -542,6 +584,9 @@ def shard(shard_no, nshards, seed, thorough):
         if nontrivial:
             acc.count('tables_nontrivial')
         opts = opts_all if kind == 'single' else opts_pair
+        # third placeholder ' - ': quick tier on single columns of <= 2 cells and one-row pairs, thorough tier everywhere
+        if thorough or len(rows) <= (2 if kind == 'single' else 1):
+            opts = opts + (blank_all if kind == 'single' else blank_pair)
         for oi, o in enumerate(opts):
             acc.count('configurations')
             if not rows and names[0] == 'c':
@@ -607,7 +652,8 @@ def run(ctx):
         'tables': n['tables'], 'tables_single': n['tables_single'], 'tables_pair': n['tables_pair'],
         'tables_with_a_non_null_cell': n['tables_nontrivial'], 'empty_results': n['empty_results'],
         'empty_results_through_render_text_module': n['empty_wrapper_calls'],
-        'option_combinations': {'single': 128, 'pair': 128 if ctx.thorough else 16},
+        'option_combinations': {'single': 128, 'pair': 128 if ctx.thorough else 16, 'extra_with_blank_placeholder': {'single': 64, 'pair': 64 if ctx.thorough else 8}},
+        'csv_cells_whose_value_has_blanks_of_its_own': n['csv_value_blanks'],
         'text_renders': n['renders'], 'csv_renders': n['csv_renders'], 'csv_renders_with_all_options': n['csv_renders_all_options'],
         'cells_read_back': n['readback'], 'null_cells': n['null'], 'headers_checked': n['headers'], 'headers_cut_narrow': n['headers_cut'],
         'tables_rendered_with_expanded_rows': n['expanded_tables'],
